@@ -1382,11 +1382,11 @@ class CMIOSimulator(Simulator):
                 delay = contend(tm, ((pc, 4), (pc1, 3), *io_c))
             else:
                 delay = 0
+            registers[29] = ((memory[pc1] + 1) % 256) + 256 * registers[0] # MEMPTR
             if self.out_tracer:
                 a = registers[0]
                 self.out_tracer(registers, memory[pc1] + 256 * a, a, 12 + delay)
             registers[15] = R1[registers[15]] # R
-            registers[29] = ((memory[pc1] + 1) % 256) + 256 * registers[0] # MEMPTR
             registers[25] += 11 + delay # T-states
             registers[24] = (pc + 2) % 65536 # PC
         return func
